@@ -923,9 +923,22 @@ func (h *htlcSuccessResolver) resolveLegacySuccessTx() error {
 	label := labels.MakeLabel(
 		labels.LabelTypeChannelClose, &h.ShortChanID,
 	)
+
+	// After a restart the success tx may be confirmed already, and its
+	// output may even have been swept, in which case the backend reports
+	// missing inputs, which the wallet maps to a double spend. Similar to
+	// the nursery's handling of the timeout tx, we continue in that case,
+	// as well as when the mempool's fee requirement isn't met: what happens
+	// to the outputs is found out on chain below.
 	err := h.PublishTx(h.htlcResolution.SignedSuccessTx, label)
-	if err != nil {
+	if err != nil && !errors.Is(err, lnwallet.ErrDoubleSpend) &&
+		!errors.Is(err, lnwallet.ErrMempoolFee) {
+
 		return err
+	}
+	if err != nil {
+		h.log.Warnf("unable to publish second-level success tx, "+
+			"continuing: %v", err)
 	}
 
 	// Fast-forward to resolve the output from the success tx if the it has
